@@ -96,6 +96,9 @@ Fixpoint get_for_result_list_kids (w : W) (kids : list ttree) : W * list str :=
       else get_for_result_list_kids w r
   end.
 
+(** exit_requested (since 05253ef): exit-on-error is on and the last result so far failed *)
+Definition exit_requested (w : W) (cr_list : list Z) : bool := exit_on_error w && last_is_nonzero cr_list.
+
 (** The loop bodies, with the recursive calls into children abstracted
     (they are instantiated at depth d-1 below). *)
 Section Loops.
@@ -122,25 +125,30 @@ Fixpoint exp_loop (in_loop : bool) (pairs : list ttree) (w : W) (cr_list : list 
           else
             let '(w1, crs) := run_line w line in
             let cr_list1 := cr_list ++ crs in
-            if last_is_nonzero cr_list1 && exit_on_error w1 then Done w1 cr_list1 false false
+            if last_is_nonzero cr_list1 && exit_on_error w1 then Done w1 cr_list1 false false   (* status != 0 && sh.exit_on_error *)
             else exp_loop in_loop rest w1 cr_list1
         else if rule =? L_EXP_IF then
           match rec_if pr in_loop w with
           | Done w1 crs c b =>
               let cr_list1 := cr_list ++ crs in
-              if c then Done w1 cr_list1 true false
+              if exit_requested w1 cr_list1 then Done w1 cr_list1 false false
+              else if c then Done w1 cr_list1 true false
               else if b then Done w1 cr_list1 false true
               else exp_loop in_loop rest w1 cr_list1
           | x => x
           end
         else if rule =? L_EXP_FOR then
           match rec_for pr w with
-          | Done w1 crs _ _ => exp_loop in_loop rest w1 (cr_list ++ crs)
+          | Done w1 crs _ _ =>
+              if exit_requested w1 (cr_list ++ crs) then Done w1 (cr_list ++ crs) false false
+              else exp_loop in_loop rest w1 (cr_list ++ crs)
           | x => x
           end
         else if rule =? L_EXP_WHILE then
           match rec_while pr w with
-          | Done w1 crs _ _ => exp_loop in_loop rest w1 (cr_list ++ crs)
+          | Done w1 crs _ _ =>
+              if exit_requested w1 (cr_list ++ crs) then Done w1 (cr_list ++ crs) false false
+              else exp_loop in_loop rest w1 (cr_list ++ crs)
           | x => x
           end
         else exp_loop in_loop rest w cr_list
@@ -193,7 +201,7 @@ Fixpoint for_values (body : ttree) (var_name : str) (vs : list str) (w : W) (cr_
   | value :: vs' =>
       match rec_exp body true (set_var w var_name value) with
       | Done w1 crs _ b =>
-          if b then Done w1 (cr_list ++ crs) false false
+          if b || exit_requested w1 (cr_list ++ crs) then Done w1 (cr_list ++ crs) false false
           else for_values body var_name vs' w1 (cr_list ++ crs)
       | x => x
       end
@@ -225,7 +233,7 @@ Fixpoint while_iter (pair_while : ttree) (k : nat) (w : W) (cr_list : list Z) {s
   | S k' =>
       match rec_br pair_while true w with
       | DoneBr w1 crs passed _ b =>
-          if negb passed || b then Done w1 (cr_list ++ crs) false false
+          if negb passed || b || exit_requested w1 (cr_list ++ crs) then Done w1 (cr_list ++ crs) false false
           else while_iter pair_while k' w1 (cr_list ++ crs)
       | PanicBr => Panic
       | OutOfFuelBr => OutOfFuel
